@@ -21,6 +21,8 @@ armi.reactor.composites.FlagSerializer, Database._writeAttrs/_resolveAttrs/_writ
                  Database._writeParams/_readParams of the `flags` parameter
   flags.explicit-values   as flags.remap for classes whose fields have explicit, non-contiguous bit values
                  (field index != bit position); outside "all flag orderings" of auto() fields, reported separately
+  (flags.remap and flags.explicit-values end in .read-error when reading raises and in .wrong-meaning when other names
+  come back: two failure classes, two ids)
 Oracle: names.  A flag set "means" the set of field names that are on (Flag._flagsOn()).
 """
 import sys, os
@@ -72,7 +74,8 @@ def hit(d, k):
 
 def flag(vid, what, inp):
     VCOUNT[vid] = VCOUNT.get(vid, 0) + 1
-    size = len(json.dumps(inp))
+    js = json.dumps(inp, sort_keys=True)
+    size = (len(js), js)  # deterministic: shortest, then alphabetical
     if vid not in VIOL or size < VIOL[vid][0]:
         VIOL[vid] = (size, what, inp)
 
@@ -235,7 +238,7 @@ def check_remap(p):
     try:
         out = FlagSerializer._unpackImpl(raw, FlagSerializer.version, rattrs, Bcls)
     except Exception as e:
-        flag(vid, "written flags cannot be read by an application whose flags are %s: %r" % (describe(p), e), p)
+        flag(vid + ".read-error", "written flags cannot be read by an application whose flags are %s: %r" % (describe(p), e), p)
         return
     hit(PATHS, "same-order fast path" if list(rattrs["flag_order"]) == Bcls.sortedFields()[: len(names)] else "bit remap path")
     if removed:
@@ -246,7 +249,7 @@ def check_remap(p):
     for S, o in zip(sets, out):
         B.case((vid, json.dumps(p, sort_keys=True), tuple(S)), {"clause": vid, "p": p, "on": S[:5]})
         if not (isinstance(o, Bcls) and o._flagsOn() == set(S)):
-            flag(vid, "flags %s written, %s read by an application whose flags are %s" % (sorted(S), sorted(o._flagsOn()), describe(p)), dict(p, on=S))
+            flag(vid + ".wrong-meaning", "flags %s written, %s read by an application whose flags are %s" % (sorted(S), sorted(o._flagsOn()), describe(p)), dict(p, on=S))
             break
 
 
@@ -377,8 +380,9 @@ def main():
                 {"permute": False, "extra": 0, "missing": 0},
             ][k % 6]
             run("remap", dict(variant, n=n, seed=seeds.randrange(10**6)))
-        run("remap", {"n": n, "seed": seeds.randrange(10**6), "permute": False, "extra": 0, "missing": 0, "explicit": True})
-        run("remap", {"n": n, "seed": seeds.randrange(10**6), "permute": True, "extra": 1, "missing": 0, "explicit": True})
+        # fixed seeds (independent of --seed): the only id that fires on the current tree keeps the same smallest input
+        run("remap", {"n": n, "seed": 1000 + n, "permute": False, "extra": 0, "missing": 0, "explicit": True})
+        run("remap", {"n": n, "seed": 2000 + n, "permute": True, "extra": 1, "missing": 0, "explicit": True})
     # the real Flags class
     n0 = len(Flags.fields())
     rowsOld, attrsOld, setsOld = check_real_identity({"check": "real-identity", "seed": seeds.randrange(10**6)})
